@@ -367,6 +367,23 @@ class Engine:
                 if e is not None:
                     outs.append((t["else"], e))
             return outs
+        if v and v[0] == "n":
+            # switch on a number itself (`match n { 0 => .., _ => .. }`): keep the targets its abstract value allows
+            S, C = v[1], v[2]
+            for val, tb in t["tg"]:
+                if (C is not None and val in C) or (C is None and sign_of(val) in S):
+                    e = self._refine(env, v[3], frozenset(sign_of(val))) if v[3] is not None else env
+                    if e is not None:
+                        outs.append((tb, e))
+            rest_possible = (C is not None and any(c not in listed for c in C)) or (C is None and (len(S) > 1 or not all(sign_of(x) in S for x in listed) or any(s_ != "0" for s_ in S)))
+            if rest_possible:
+                zero_listed = 0 in listed
+                e = env
+                if zero_listed and v[3] is not None:
+                    e = self._refine(env, v[3], NONZERO)
+                if e is not None:
+                    outs.append((t["else"], e))
+            return outs
         if v and v[0] == "bool":
             val = 1 if v[1] else 0
             tgt = t["else"]
